@@ -25,6 +25,25 @@ would hit it: multi-start loops, a short pilot run followed by the real run, re-
 bounds, parameter sweeps over options.
 
 """,
+"option": """## Focus for this task
+
+Your change must be INVISIBLE under default options and manifest only when the user sets ONE specific documented option
+(from pybads/bads/option_configs/basic_bads_options.ini or advanced_bads_options.ini) to a valid non-default value -
+a boolean flipped, or a number moderately different from its default (e.g. half or twice the default).  Pick an option
+that is actually read by the code path you change (not one of the unused / unsupported ones such as acq_hedge, fit_lik,
+warp_func, gp_samples, stobads, plot, restarts).  With every option at its default the changed code must behave exactly
+(bit-identically) like the original.
+
+""",
+"numeric": """## Focus for this task
+
+Your change must be a NUMERICAL / BOUNDARY slip: a strict comparison turned non-strict (or the reverse), a tolerance
+scaled wrongly, float equality where a tolerance is needed (or the reverse), rounding in the wrong direction, an
+off-by-one-ulp or off-by-one-mesh-step, integer vs float division, a sign error that cancels in the symmetric case,
+a wrong axis in a reduction that gives the same result for square / one-row inputs.  It must give identical results in
+typical runs and differ only on ties, exact boundaries, degenerate shapes or extreme magnitudes.
+
+""",
 "unusual": """## Focus for this task
 
 YOUR change must need an UNUSUAL BUT VALID INPUT OR OPTION to manifest - something in the corner of the documented
